@@ -8,10 +8,20 @@ var initTime = time.Now().AddDate(-1, -1, -1)
 // Now 返回自 initTime 以来的相对时长。
 // 调用者只需关心相对值。
 func Now() time.Duration {
+	if verifEnabled {
+		if d, ok := verifNow(); ok {
+			return d
+		}
+	}
 	return time.Since(initTime)
 }
 
 // Since 返回距离 duration 以来的差异。
 func Since(t time.Duration) time.Duration {
+	if verifEnabled {
+		if d, ok := verifNow(); ok {
+			return d - t
+		}
+	}
 	return time.Since(initTime) - t
 }
